@@ -120,7 +120,7 @@ def _jump_length(tg, n):
     ks = [k for k in tg.ctx.fx.fns if k.startswith("<%s::Backend as axcut2backend::config::Config<" % tg.crate) and k.endswith(">::jump_length")]
     outs = backend.fold(tg.ctx, ks[0], [n])[1]
     r = outs[0].result
-    return r.fields["val"] if isinstance(r, Adt) else r
+    return interp.sole_int(r)
 
 
 def _label_var(v):
